@@ -8,6 +8,9 @@ import (
 	"bytes"
 	"encoding/binary"
 	"fmt"
+	"os"
+	"path/filepath"
+	"strconv"
 	"strings"
 	"testing"
 
@@ -169,18 +172,24 @@ func FuzzPacketABI(f *testing.F) {
 		"transfer": {{K: 's', S: "0xtoken"}, {K: 's', S: "ori"}, {K: 'b', B: word(1000)}, {K: 's', S: "0xreceiver"}},
 		"call":     {{K: 's', S: "0xcontract"}, {K: 'b', B: bytes.Repeat([]byte{0x2f}, 33)}},
 	}
+	var inCode [][]interface{}
+	add := func(kind uint8, b []byte) {
+		f.Add(kind, b)
+		inCode = append(inCode, []interface{}{kind, b})
+	}
 	for i, name := range codecNames {
 		b := refEncode(samples[name])
-		f.Add(uint8(i), b)
+		add(uint8(i), b)
 		dirty := append([]byte{}, b...)
 		dirty[len(dirty)-1] = 1
-		f.Add(uint8(i), dirty)
-		f.Add(uint8(i), append(append([]byte{}, b...), word(0)...))
+		add(uint8(i), dirty)
+		add(uint8(i), append(append([]byte{}, b...), word(0)...))
 		wide := append([]byte{}, b...)
 		wide[32+32*len(codecByName[name].kinds)] = 1 // over-wide length word of the first tail
-		f.Add(uint8(i), wide)
+		add(uint8(i), wide)
 	}
-	f.Add(uint8(1), refEncode([]field{{K: 'u', U: 0}, {K: 'b'}, {K: 's', S: "\xff"}, {K: 's'}, {K: 'u', U: 0}}))
+	add(uint8(1), refEncode([]field{{K: 'u', U: 0}, {K: 'b'}, {K: 's', S: "\xff"}, {K: 's'}, {K: 'u', U: 0}}))
+	before := corpusDirListing("FuzzPacketABI")
 	f.Fuzz(func(t *testing.T, kind uint8, data []byte) {
 		c := codecs[int(kind)%len(codecs)]
 		class, msg := checkBytes(c, data)
@@ -190,6 +199,113 @@ func FuzzPacketABI(f *testing.F) {
 		r.Label("branch:" + class)
 		r.Case(c.name+"|"+class, true, func() interface{} { return fmt.Sprintf("%s %s %x", c.name, class, clipB(data)) })
 	})
+	flakeGuard(f, "FuzzPacketABI", before, inCode, func(vals []interface{}) string {
+		if len(vals) != 2 {
+			return "unexpected corpus arity"
+		}
+		kind, ok1 := vals[0].(uint8)
+		data, ok2 := vals[1].([]byte)
+		if !ok1 || !ok2 {
+			return "unexpected corpus types"
+		}
+		_, msg := checkBytes(codecs[int(kind)%len(codecs)], data)
+		return msg
+	})
+}
+
+// ---------------------------------------------------------------------------------------------
+// watchdog-flake guard
+//
+// Go's fuzz worker panics when a single execution takes more than 10 s of wall time ("fuzzing process
+// hung or terminated unexpectedly"); on an overloaded machine that happens to executions that take
+// microseconds when replayed, and the coordinator then records the innocent input as failing. After a
+// failed fuzz run the coordinator therefore re-executes every newly written input in-process under the
+// same oracle: if all of them pass, the failure was the watchdog and a HARNESS line is printed (the
+// driver reports "inconclusive" instead of a violation). A genuine failure fails again here.
+
+func corpusDirListing(name string) map[string]bool {
+	out := map[string]bool{}
+	ents, _ := os.ReadDir(filepath.Join("testdata", "fuzz", name))
+	for _, e := range ents {
+		out[e.Name()] = true
+	}
+	return out
+}
+
+// parseCorpusFile reads a "go test fuzz v1" file with byte(...) and []byte(...) lines.
+func parseCorpusFile(path string) (vals []interface{}, err error) {
+	bz, err := os.ReadFile(path)
+	if err != nil {
+		return nil, err
+	}
+	lines := strings.Split(strings.TrimSpace(string(bz)), "\n")
+	if len(lines) == 0 || strings.TrimSpace(lines[0]) != "go test fuzz v1" {
+		return nil, fmt.Errorf("not a corpus file")
+	}
+	for _, l := range lines[1:] {
+		l = strings.TrimSpace(l)
+		switch {
+		case strings.HasPrefix(l, "[]byte(") && strings.HasSuffix(l, ")"):
+			s, err := strconv.Unquote(l[len("[]byte(") : len(l)-1])
+			if err != nil {
+				return nil, err
+			}
+			vals = append(vals, []byte(s))
+		case strings.HasPrefix(l, "byte(") && strings.HasSuffix(l, ")"):
+			s, err := strconv.Unquote(l[len("byte(") : len(l)-1])
+			if err != nil || len(s) == 0 {
+				return nil, fmt.Errorf("bad byte literal %s", l)
+			}
+			if r := []rune(s); len(r) == 1 && r[0] < 256 {
+				vals = append(vals, uint8(r[0]))
+			} else {
+				vals = append(vals, s[0])
+			}
+		default:
+			return nil, fmt.Errorf("unsupported corpus line %q", l)
+		}
+	}
+	return vals, nil
+}
+
+func flakeGuard(f *testing.F, name string, before map[string]bool, inCode [][]interface{}, rerun func(vals []interface{}) string) {
+	if !f.Failed() {
+		return
+	}
+	after := corpusDirListing(name)
+	fresh := 0
+	for n := range after {
+		if !before[n] {
+			fresh++
+		}
+	}
+	checked := 0
+	for n := range after {
+		if fresh > 0 && before[n] {
+			continue // the engine recorded new inputs: those are the suspects
+		}
+		vals, err := parseCorpusFile(filepath.Join("testdata", "fuzz", name, n))
+		if err != nil {
+			fmt.Printf("%s: cannot re-read corpus input %s: %v\n", name, n, err)
+			return
+		}
+		if msg := rerun(vals); msg != "" {
+			fmt.Printf("%s: corpus input %s fails again in-process: %s\n", name, n, clip(msg, 600))
+			return
+		}
+		checked++
+	}
+	if fresh == 0 { // failure while running the seed corpus: the seeds added in code are suspects too
+		for i, vals := range inCode {
+			if msg := rerun(vals); msg != "" {
+				fmt.Printf("%s: in-code seed #%d fails again in-process: %s\n", name, i, clip(msg, 600))
+				return
+			}
+			checked++
+		}
+	}
+	fmt.Printf("HARNESS: %s: the fuzzing engine reported a failure, but all %d suspect input(s) (%d newly recorded) pass when re-executed in-process under the "+
+		"same oracle (fuzz worker watchdog / worker death on an overloaded machine, not a counter-example)\n", name, checked, fresh)
 }
 
 // nameFromBytes maps raw bytes onto the chain-name alphabet (length forced into 3..64).
@@ -291,17 +407,33 @@ func FuzzKeyParse(f *testing.F) {
 		b[24], b[25] = typ, split
 		return append(b, names...)
 	}
-	f.Add(seed(0, 1, 1, 0, 3, "abcdef"))
-	f.Add(seed(0, 46, 10, 1, 9, "sequencesclientState"))
-	f.Add(seed(1, 48, ^uint64(0), 2, 15, "consensusStatescommitments"))
-	f.Add(seed(0, 255, 0, 0, 0, ""))
-	f.Add(seed(9000, 1<<63, 12079, 1, 64, string(bytes.Repeat([]byte{7}, 128))))
-	f.Add(seed(0, 47, 1, 0, 3, "abcdef"))        // byte 0x2f: exercises the exclusion of the listed findings
-	f.Add(seed(47<<56, 303, 47, 2, 3, "a.bA.B")) // byte 0x2f in the revision
+	var inCode [][]interface{}
+	add := func(b []byte) {
+		f.Add(b)
+		inCode = append(inCode, []interface{}{b})
+	}
+	add(seed(0, 1, 1, 0, 3, "abcdef"))
+	add(seed(0, 46, 10, 1, 9, "sequencesclientState"))
+	add(seed(1, 48, ^uint64(0), 2, 15, "consensusStatescommitments"))
+	add(seed(0, 255, 0, 0, 0, ""))
+	add(seed(9000, 1<<63, 12079, 1, 64, string(bytes.Repeat([]byte{7}, 128))))
+	add(seed(0, 47, 1, 0, 3, "abcdef"))        // byte 0x2f: exercises the exclusion of the listed findings
+	add(seed(47<<56, 303, 47, 2, 3, "a.bA.B")) // byte 0x2f in the revision
+	before := corpusDirListing("FuzzKeyParse")
 	f.Fuzz(func(t *testing.T, data []byte) {
 		if msg := keyParseCheck(data); msg != "" {
 			t.Fatalf("%s", msg)
 		}
 		r.Case(fmt.Sprintf("len=%d", len(data)), true, func() interface{} { return fmt.Sprintf("%x", clipB(data)) })
+	})
+	flakeGuard(f, "FuzzKeyParse", before, inCode, func(vals []interface{}) string {
+		if len(vals) != 1 {
+			return "unexpected corpus arity"
+		}
+		data, ok := vals[0].([]byte)
+		if !ok {
+			return "unexpected corpus type"
+		}
+		return keyParseCheck(data)
 	})
 }
